@@ -243,6 +243,38 @@ pub fn run(ctx: &mut Ctx) {
         if gen::root_digest(&other) != before.digest && ph.unelide(other).is_ok() {
             ctx.violation("unelide/accepts-mismatch", "unelide accepted an envelope with another digest", jhex(&e));
         }
+        // receivers other than a bare elided placeholder: partially obscured, encrypted / compressed
+        // placeholders, plain envelopes - still only an envelope with the same digest is accepted
+        {
+            let wrong = Envelope::new(format!("wrong-{}", case)).add_assertion("w", case);
+            let mut receivers: Vec<(&str, Envelope)> = vec![("plain", e.clone()), ("partially-obscured", gen::obscure_random(&e, &mut rng, 2, &key))];
+            if let Ok(c) = e.compress() {
+                receivers.push(("compressed", c));
+            }
+            if !e.is_subject_encrypted() && !e.is_subject_elided() {
+                receivers.push(("encrypted", e.wrap_envelope().encrypt_subject(&key).unwrap()));
+            }
+            for (label, r) in receivers {
+                ctx.eval();
+                ctx.count("unelide_non_placeholder_receivers");
+                let rd = gen::root_digest(&r);
+                if gen::root_digest(&wrong) != rd {
+                    if let Ok(Ok(_)) = trap::guard(|| r.unelide(wrong.clone())) {
+                        ctx.violation(&format!("unelide/accepts-mismatch/{}", label), "unelide accepted an envelope with another digest", jhex(&r));
+                    }
+                }
+                let right = if label == "encrypted" { e.wrap_envelope() } else { e.clone() };
+                match trap::guard(|| r.unelide(right.clone())) {
+                    Ok(Ok(x)) => {
+                        if !x.is_identical_to(&right) {
+                            ctx.violation(&format!("unelide/not-the-offered-envelope/{}", label), "unelide did not return the matching envelope that was offered", jhex(&r));
+                        }
+                    }
+                    Ok(Err(_)) => ctx.violation(&format!("unelide/rejects-match/{}", label), "unelide rejected an envelope with the same digest", jhex(&r)),
+                    Err(p) => ctx.violation(&format!("unelide/panic/{}", p.signature()), &format!("{:?}", p), jhex(&r)),
+                }
+            }
+        }
         // equal prefix, different digest
         let mut d2 = before.digest;
         d2[31] ^= 1;
